@@ -79,7 +79,9 @@ def corr_guard(chk, r, n):
             ok &= t[0] == q(py["below_z"])
         if feat in ("just-above", "just-below"):
             # one ulp away from an exact boundary: the double result must be on the right side or on the boundary
-            ok &= py["below_z"] == (feat == "just-below") or shat == 4 * case["m2"]
+            # (since the repair of F26 the guard also fires when the double eta(z) comes out <= 0: one ulp on
+            # the open side may therefore count as below; over exact numbers that clause is redundant)
+            ok &= py["below_z"] == (feat == "just-below") or shat == 4 * case["m2"] or (feat == "just-above" and py["below_z"] and py["eta"] <= 0.0)
         if not nearx:
             ok &= t[1] == q(py["below_x"]) and py["decorated_empty"] == py["below_x"]
         sign = "+" if py["eta"] > 0 else ("neg" if py["eta"] < 0 else "0")
@@ -187,7 +189,11 @@ def search_partonic(chk, r, thorough):
                         for z in zs_beyond:
                             if Q2 * (1 - z) / z > 4 * m2:
                                 continue  # rounding put it on the open side
-                            v = rsl.reg(z, rsl.args["reg"])
+                            try:
+                                v = rsl.reg(z, rsl.args["reg"])
+                            except Exception as e:  # noqa: beyond the threshold nothing may be evaluated at all
+                                bad = f"reg({z}) raises {type(e).__name__}: {e} although Q2(1-z)/z = {Q2 * (1 - z) / z} <= 4m2 = {4 * m2}"[:220]
+                                continue
                             if not (isinstance(v, float) and v == 0.0):
                                 bad = f"reg({z}) = {v!r} although Q2(1-z)/z = {Q2 * (1 - z) / z} <= 4m2 = {4 * m2}"
                         called_beyond = [c for c in recorded]
@@ -203,6 +209,38 @@ def search_partonic(chk, r, thorough):
                         if neg_eta:
                             bad = bad or f"LeProHQ.{neg_eta[0][0]} evaluated at eta = {neg_eta[0][1]} <= 0"
                         d = dict(site=label, Q2=Q2, m2=m2, zmax=zmax, problem=bad, value_inside=vin)
+                        if order <= 2 and zb is None:
+                            # generic masses: at the doubles next to the threshold the guard (computed from
+                            # Q2 (1-z)/z) and eta(z) (computed from Q2/m2) round independently; whatever side
+                            # the guard takes, the part returns a finite number and the massive library is
+                            # not called at eta <= 0
+                            probe_bad, n_probe = None, 0
+                            for _ in range(12 if thorough else 4):
+                                m2g, Q2g = float(r.uniform(1.0, 30.0)), float(r.uniform(2.0, 500.0))
+                                zt = Q2g / (Q2g + 4 * m2g)
+                                try:
+                                    og = cls(StubESF(min(0.05, zt / 2), Q2g), 3, m2hq=m2g)[order]()
+                                except Exception:
+                                    continue
+                                if og is None or og.reg is None:
+                                    continue
+                                cands = [zt]
+                                for _k in range(2):
+                                    cands = [float(np.nextafter(cands[0], 0.0))] + cands + [float(np.nextafter(cands[-1], 1.0))]
+                                for zz in cands:
+                                    del recorded[:]
+                                    n_probe += 1
+                                    try:
+                                        vv = og.reg(zz, og.args["reg"])
+                                        if not np.all(np.isfinite(vv)):
+                                            probe_bad = probe_bad or dict(Q2=Q2g, m2=m2g, z=zz, value=repr(vv), guard_below=bool(Q2g * (1 - zz) / zz <= 4 * m2g))
+                                    except Exception as e:  # noqa
+                                        probe_bad = probe_bad or dict(Q2=Q2g, m2=m2g, z=zz, error=f"{type(e).__name__}: {e}"[:80])
+                                    if [c_ for c_ in recorded if c_[1] <= 0] and probe_bad is None:
+                                        probe_bad = dict(Q2=Q2g, m2=m2g, z=zz, called=f"LeProHQ.{recorded[0][0]} at eta = {recorded[0][1]}")
+                            del recorded[:]
+                            if n_probe:
+                                chk.search_case("finite_at_the_partonic_threshold", probe_bad is None, what=f"{label}: regular part next to the partonic threshold (generic masses): {probe_bad}", data=dict(site=label, problem=probe_bad), sample=None, nontrivial=True)
                         chk.search_case("integrand_zero_beyond_partonic_threshold", bad is None, what=f"{label} Q2={Q2} m={m}: {bad}", data=d, sample=d if cname == "GluonVV" and order == 1 else None, nontrivial=vin != 0.0)
     finally:
         for name, f in originals.items():
